@@ -7,6 +7,7 @@ import (
 	"fmt"
 	"reflect"
 	"sort"
+	"sync/atomic"
 	"time"
 	"unsafe"
 
@@ -33,6 +34,43 @@ func packPlain(m *dns.Msg) (b []byte, err error) {
 	m.Compress = c
 	return
 }
+
+// packServed packs a served message for comparison. OPT pseudo-records are left
+// out: whether the cache keeps or drops EDNS0 records of a stored answer is not
+// what this property is about (C15), so the oracle does not depend on it. The
+// served message itself is not modified (a shallow clone with filtered section
+// slices is packed).
+func packServed(hit *dns.Msg) ([]byte, error) {
+	if hit == nil {
+		return nil, fmt.Errorf("nil message")
+	}
+	hasOpt := false
+	for _, sec := range [][]dns.RR{hit.Answer, hit.Ns, hit.Extra} {
+		for _, rr := range sec {
+			if _, ok := rr.(*dns.OPT); ok {
+				hasOpt = true
+			}
+		}
+	}
+	if !hasOpt {
+		return packPlain(hit)
+	}
+	servedOPTs.Add(1)
+	tmp := *hit
+	filter := func(in []dns.RR) []dns.RR {
+		out := make([]dns.RR, 0, len(in))
+		for _, rr := range in {
+			if _, ok := rr.(*dns.OPT); !ok {
+				out = append(out, rr)
+			}
+		}
+		return out
+	}
+	tmp.Answer, tmp.Ns, tmp.Extra = filter(hit.Answer), filter(hit.Ns), filter(hit.Extra)
+	return packPlain(&tmp)
+}
+
+var servedOPTs atomic.Int64
 
 // stateBytes is a total description of a message the harness owns (packed form
 // or the pack error), used to see whether a mutation had an effect and whether
@@ -171,7 +209,7 @@ func checkServed(hit *dns.Msg, qid uint16, pr *pristine, rule ttlRule, wantCompr
 	if wantCompress != nil && hit.Compress != *wantCompress {
 		return &mismatch{Field: "compress-flag", Detail: fmt.Sprintf("Compress=%v, stored message had %v", hit.Compress, *wantCompress)}
 	}
-	b, err := packPlain(hit)
+	b, err := packServed(hit)
 	if err != nil {
 		return &mismatch{Field: "pack-error", Detail: err.Error()}
 	}
@@ -226,7 +264,7 @@ func checkServed(hit *dns.Msg, qid uint16, pr *pristine, rule ttlRule, wantCompr
 // normKey returns the version identity of a served message: packed bytes with
 // ID and every TTL zeroed (and the served TTLs), or an error description.
 func normKey(hit *dns.Msg) (key string, ttls []uint32, err error) {
-	b, err := packPlain(hit)
+	b, err := packServed(hit)
 	if err != nil {
 		return "", nil, err
 	}
